@@ -35,8 +35,8 @@ func (c *checkCtx) abstractLemmas(names ...string) {
 				return Implies(And(canon(x), Eq(u, Cat(E(x), r))), And(ok, Eq(val, x), Eq(rest, r)))
 			}
 			hyps := []*Term{canon(v), Le(IntC(0), k), Lt(k, Len(E(v))),
-				re(u1, ok1, val1, rest1), // the run on the truncated input, if it succeeds, satisfies re
-				rt(u2, ok2, val2, rest2), // a run on the full encoding (it exists: safe) satisfies rt for every ghost (x, r) ...
+				re(u1, ok1, val1, rest1),                             // the run on the truncated input, if it succeeds, satisfies re
+				rt(u2, ok2, val2, rest2),                             // a run on the full encoding (it exists: safe) satisfies rt for every ghost (x, r) ...
 				rtInst(u2, ok2, val2, rest2, val1, Cat(rest1, tail)), // ... in particular for (val1, rest1 ++ tail)
 				rtInst(u2, ok2, val2, rest2, v, Empty),               // ... and for (v, empty)
 				Eq(u2, Cat(u1, tail)),
